@@ -151,6 +151,9 @@ PROPS["C01"] = {
 
 import c14stage
 PROPS["C14"] = {
+    "engine": "smt-z3-cvc5",
+    "level_note": "trusted: z3 4.8.12 and cvc5 1.0 (must agree), the row extractor and the encoder (validated on every run by exhaustive comparison with the real "
+                  "functions), the NCBI table 1 strings and IUPAC sets typed into bin/c14stage.py, the native build of /repo",
     "feature": "c14",
     "tiers": {"quick": [], "thorough": [], "probe": []},
     "stages": [c14stage.stage],
